@@ -705,6 +705,9 @@ func init() {
 			fs.Floor("codec_method_pairs", 20)
 			fs.Floor("codec_fields", 35)
 			res.Merge(fs)
+			ng := decode.RunNilGuard(def, core.Pkgs("./graph/formats/...", "./graph/encoding/...", "./stat/card", "./mathext/prng"))
+			ng.Floor("exiting_nil_guards_of_fields", 6)
+			res.Merge(ng)
 			ex := errx.Run(def, core.Pkgs("./graph/formats/...", "./graph/encoding/...", "./stat/card", "./mathext/prng"))
 			ex.Floor("error_definitions", 60)
 			res.Merge(ex)
@@ -869,6 +872,8 @@ func dump(argv []string) {
 		res = matargs.RunAccess(def)
 	case "globalstate":
 		res = globalx.RunDecls(def, core.Pkgs(argv[1:]...), nil)
+	case "nilguard":
+		res = decode.RunNilGuard(def, core.Pkgs(argv[1:]...))
 	case "betascale":
 		res = flagx.RunBetaScale(def, core.Pkgs(argv[1:]...))
 	case "guardop":
